@@ -49,6 +49,7 @@ pub struct NHistory {
     token_sessions: HashMap<u64, u32>,  // token -> sessions established with it
     invalid_response: bool,             // the datagram being delivered is a crafted response that must be ignored
     token_bound: HashMap<u64, SocketAddr>, // token -> the address its MAC was first recorded for by the server
+    bound_order: Vec<u64>,                 // tokens in the order the server recorded them
     max_accepted: HashMap<(u8, u64), u64>, // (direction, client k) -> highest sequence accepted in the current session
     owner_crafted: bool,                 // the datagram being delivered was sealed by the owner of the token (op 155)
     delivered_to_client: HashMap<u64, HashSet<Vec<u8>>>,
@@ -110,6 +111,7 @@ impl NHistory {
             token_sessions: HashMap::new(),
             invalid_response: false,
             token_bound: HashMap::new(),
+            bound_order: vec![],
             max_accepted: HashMap::new(),
             owner_crafted: false,
             delivered_to_client: HashMap::new(),
@@ -295,7 +297,25 @@ impl NHistory {
                         self.valid_requests.push((from, t.0));
                         // the server records the token's MAC for this address unless it stopped earlier (id or address connected)
                         if !connected_before && !id_connected_before.contains(&t.1.id) {
+                            if !self.token_bound.contains_key(&t.0) {
+                                self.bound_order.push(t.0);
+                            }
                             self.token_bound.entry(t.0).or_insert(from);
+                        }
+                    }
+                }
+            }
+        }
+        // C05/C19: a request whose token the server has recorded for another address gets no answer
+        if let (true, Some((k, _))) = (is_request, genuine_of) {
+            if let Some(t) = self.client_token.get(&k).copied() {
+                if let Some(bound) = self.token_bound.get(&t).copied() {
+                    let later = self.bound_order.iter().position(|x| *x == t).map(|p| self.bound_order.len() - 1 - p).unwrap_or(0);
+                    if bound != from && kind != 0 && !connected_before {
+                        let class = if later >= 2048 { " [class:token-entry-evicted]" } else { "" };
+                        self.violate("C05", format!("a connection request from {} carrying a token the server had recorded for {} was answered with {}{}", from, bound, obs.to_text().chars().take(60).collect::<String>(), class));
+                        if class.is_empty() {
+                            self.violate("C19", format!("a connection request from {} carrying a token the server had recorded for {} was answered", from, bound));
                         }
                     }
                 }
@@ -438,7 +458,9 @@ impl NHistory {
                     }
                     // a token already used from a different address never produces a connection
                     if !toks.is_empty() && toks.iter().all(|t| self.token_bound.get(t).map(|b| *b != a).unwrap_or(false)) {
-                        let class = if self.token_bound.len() > 2047 { " [class:token-entry-evicted]" } else { "" };
+                        // the known finding: the table of 2048 entries forgets a token once 2048 others were recorded after it
+                        let later = toks.iter().filter_map(|t| self.bound_order.iter().position(|x| x == t)).map(|p| self.bound_order.len() - 1 - p).min().unwrap_or(0);
+                        let class = if later >= 2048 { " [class:token-entry-evicted]" } else { "" };
                         self.violate("C05", format!("client id {} connected from {} with a connect token that the server had first accepted from {:?}{}", id, a, toks.iter().filter_map(|t| self.token_bound.get(t)).next(), class));
                     }
                     if !ok {
@@ -476,6 +498,7 @@ impl NHistory {
             return;
         }
         let before = self.world.client_state_tree(k);
+        let was_connected = self.world.clients.get(&k).map(|c| c.verif_state().0 == 3).unwrap_or(false);
         // authentic for this client: opens under the server-to-client key of the token it holds
         let opens = match self.client_token.get(&k).and_then(|t| self.tokens.get(t)) {
             Some(t) => {
@@ -497,6 +520,12 @@ impl NHistory {
         let after = self.world.client_state_tree(k);
         if before != after {
             self.delivered_to_client.entry(k).or_default().insert(data.clone());
+        }
+        // a connected client leaves that state by a datagram only when it is the server's disconnect packet
+        let now_state = self.world.clients.get(&k).map(|c| c.verif_state().0);
+        if was_connected && now_state == Some(0) && prefix_info(&data).map(|(ty, _)| ty != 6).unwrap_or(true) {
+            self.violate("C18", format!("a connected client {} was disconnected by a datagram of type {:?} that is not a disconnect packet", k, prefix_info(&data).map(|x| x.0)));
+            self.violate("C07", format!("a datagram of type {:?} ended the session of connected client {}", prefix_info(&data).map(|x| x.0), k));
         }
         let surfaced = match obs.as_l() {
             Some([Tree::N(1), Tree::B(p)]) => Some(p.clone()),
